@@ -67,6 +67,10 @@ def _send(self, request, stream=False, timeout=None, verify=True, cert=None, pro
                       extra={"verb": request.method, "url": request.url, "stream": bool(stream)})
     lat = float(out.get("lat", 0.0))
     CLOCK.advance(lat)
+    if out.get("conn_error"):
+        # fault: the (kept-alive) connection was dropped by the peer: no response, requests raises ConnectionError
+        sim.end(out, "CONNECTION_ERROR")
+        raise requests.exceptions.ConnectionError("('Connection aborted.', RemoteDisconnected('injected by simulator'))", request=request)
     resp = requests.Response()
     resp.request = request
     resp.url = request.url
